@@ -13,7 +13,9 @@ Times == IF Size = "small"
          THEN <<<<1, 1, 1, 0, 0, 0>>, <<999, 12, 31, 23, 59, 59>>, <<2019, 10, 11, 19, 15, 35>>, <<2019, 10, 11, 19, 15, 36>>, <<9999, 12, 31, 23, 59, 59>>>>
          ELSE <<<<1, 1, 1, 0, 0, 0>>, <<999, 12, 31, 23, 59, 59>>, <<1000, 1, 1, 0, 0, 0>>, <<2019, 10, 11, 19, 15, 35>>, <<2019, 10, 11, 19, 15, 36>>,
                 <<2020, 2, 29, 12, 0, 0>>, <<2100, 1, 1, 0, 0, 0>>, <<9999, 12, 31, 23, 59, 59>>>>
-Revs == <<S("0"), S("abc"), S("abcdef123456"), S("ABCdef"), S("zzzzzzzzzzzz"), S("000000000000")>>
+Revs == <<S("0"), S("abc"), S("abcdef123456"), S("ABCdef"), S("zzzzzzzzzzzz"), S("000000000000"),
+          \* a full SHA-1 and a full SHA-256 in hexadecimal, and a 13-character one: the revision is recovered as given, whatever its length
+          S("0123456789abcdef0123456789abcdef01234567"), S("0123456789abcdef0123456789abcdef0123456789abcdef0123456789abcdef"), S("abcdef1234567")>>
 MajorFor(older, k) == IF Valid(older) THEN Major(older) ELSE <<<<>>, S("v0"), S("v1"), S("v2")>>[1 + (k % 4)]
 
 Init == phase = "hub" /\ bi = 0 /\ ti = 0 /\ ri = 0
